@@ -319,6 +319,7 @@ type c15Target struct {
 	mkCfg        func(r *mon.RNG) *gmtls.Config
 	refModel     bool // the strict reference endpoint is a model of this target (GM handshake)
 	auth         bool
+	helloOnly    bool // configuration variant of another target: only the ClientHello catalogue is run against it
 }
 
 type c15Result struct {
@@ -488,6 +489,29 @@ func runC15(c *Ctx) {
 			return cfg
 		}},
 	}
+	// configuration variants of the server targets (suite preference, configuration callbacks): ClientHello catalogue only
+	for _, bt := range append([]c15Target{}, targets...) {
+		if !bt.peerIsClient || bt.auth {
+			continue
+		}
+		bt := bt
+		targets = append(targets, c15Target{name: bt.name + "+prefer-server-suites", peerIsClient: true, refModel: bt.refModel, helloOnly: true, mkCfg: func(rr *mon.RNG) *gmtls.Config {
+			cfg := bt.mkCfg(rr)
+			cfg.PreferServerCipherSuites = true
+			return cfg
+		}})
+		targets = append(targets, c15Target{name: bt.name + "+GetConfigForClient", peerIsClient: true, refModel: bt.refModel, helloOnly: true, mkCfg: func(rr *mon.RNG) *gmtls.Config {
+			cfg := bt.mkCfg(rr)
+			cfg.GetConfigForClient = func(*gmtls.ClientHelloInfo) (*gmtls.Config, error) { return nil, nil }
+			return cfg
+		}})
+		targets = append(targets, c15Target{name: bt.name + "+GetConfigForClient(new config)", peerIsClient: true, refModel: bt.refModel, helloOnly: true, mkCfg: func(rr *mon.RNG) *gmtls.Config {
+			cfg := bt.mkCfg(rr)
+			inner := bt.mkCfg(rr)
+			cfg.GetConfigForClient = func(*gmtls.ClientHelloInfo) (*gmtls.Config, error) { return inner, nil }
+			return cfg
+		}})
+	}
 	clientSteps := []string{ref.StClientHello, ref.StClientCertificate, ref.StClientKeyExchange, ref.StCertificateVerify, ref.StClientCCS, ref.StClientFinished}
 	serverSteps := []string{ref.StServerHello, ref.StCertificate, ref.StServerKeyExchange, ref.StCertificateRequest, ref.StServerHelloDone, ref.StServerCCS, ref.StServerFinished}
 	hsTypes := []int{0, 1, 2, 4, 11, 12, 13, 14, 15, 16, 20, 99}
@@ -503,6 +527,9 @@ func runC15(c *Ctx) {
 		}
 		jobs = append(jobs, job{t, deviation{"-", "honest", 0, 0}})
 		for _, st := range steps {
+			if t.helloOnly {
+				break
+			}
 			if (st == ref.StClientCertificate || st == ref.StCertificateVerify || st == ref.StCertificateRequest) && !t.auth {
 				continue
 			}
